@@ -8,6 +8,7 @@ import (
 	"gfverif/gen"
 
 	"github.com/nyaruka/gocommon/jsonx"
+	"github.com/nyaruka/goflow/assets"
 	"github.com/nyaruka/goflow/contactql"
 	"github.com/nyaruka/goflow/envs"
 	"github.com/nyaruka/goflow/flows"
@@ -184,6 +185,16 @@ func checkMembership(w *World, contact *flows.Contact, sa flows.SessionAssets, e
 		if q1 != q2 {
 			w.probe("c06_env_disagreement_relaxed")
 		}
+		// what a query says about a contact does not depend on the order its URNs are stored in
+		if len(contact.URNs()) >= 2 {
+			if rev := reversedURNs(contact, sa); rev != nil {
+				if qr := queryResult(env1, sa, g, rev); qr != q1 {
+					w.Violate("C06", "urn-order", "C06.query-depends-on-urn-order/"+queryClass(g.Query()), fmt.Sprintf("after %s the query %q of group %q evaluates to %v on the contact and to %v on the same contact with its URNs in reverse order (urns %v)", where, g.Query(), g.Name(), q1, qr, contact.URNs().RawURNs()))
+					return
+				}
+				w.probe("c06_urn_order_invariance_checked")
+			}
+		}
 		if in != q1 && in != q2 {
 			w.Violate("C06", "membership", fmt.Sprintf("C06.membership/%s/in=%v/%s", where, in, queryClass(g.Query())),
 				fmt.Sprintf("after %s the contact is in group %q = %v but its query %q evaluates to %v on the contact %s", where, g.Name(), in, g.Query(), q1, clip(string(mustJSON(contact)), 1200)))
@@ -200,6 +211,29 @@ func checkMembership(w *World, contact *flows.Contact, sa flows.SessionAssets, e
 		}
 		w.probe("c06_nonactive_cleared_checked")
 	}
+}
+
+// reversedURNs returns a copy of the contact whose URNs are in reverse order.
+func reversedURNs(contact *flows.Contact, sa flows.SessionAssets) *flows.Contact {
+	var j map[string]any
+	if json.Unmarshal(mustJSON(contact), &j) != nil {
+		return nil
+	}
+	u, _ := j["urns"].([]any)
+	if len(u) < 2 {
+		return nil
+	}
+	r := make([]any, len(u))
+	for i := range u {
+		r[len(u)-1-i] = u[i]
+	}
+	j["urns"] = r
+	b, _ := json.Marshal(j)
+	c, err := flows.ReadContact(sa, b, assets.IgnoreMissing)
+	if err != nil {
+		return nil
+	}
+	return c
 }
 
 // queryResult evaluates the group's query text on the contact under env, parsing the text afresh so
